@@ -17,6 +17,34 @@ ASSUME = [
 ]
 
 
+def apalache_induction(ctx):
+    """ReplayCacheInd.tla: Init => IndInv and IndInv /\\ Next => IndInv' for 5 hashes, capacities 0..4 and an unbounded
+    number of operations (integers are symbolic).  IndInv contains I4: whenever the property layer obliges a refusal the
+    hash is remembered, hence the next Add of it returns FALSE."""
+    import shutil, subprocess, tempfile
+    if not shutil.which("apalache-mc"):
+        ctx.cov["skipped"].append("apalache-mc not found: inductive check not run")
+        return
+    d = tempfile.mkdtemp(prefix="apa-", dir=ctx.scratch)
+    shutil.copy(os.path.join(vlib.SPEC, "ReplayCacheInd.tla"), d)
+    done = 0
+    for name, args in (("Init => IndInv", ["--init=Init", "--inv=IndInv", "--length=0"]),
+                       ("IndInv /\\ Next => IndInv'", ["--init=IndInit", "--inv=IndInv", "--length=1"])):
+        try:
+            p = subprocess.run(["timeout", "900", "apalache-mc", "check", "--cinit=CInit"] + args + ["ReplayCacheInd.tla"],
+                               cwd=d, stdout=subprocess.PIPE, stderr=subprocess.STDOUT, text=True)
+        except Exception as e:
+            raise vlib.Inconclusive("apalache could not be started: %r" % e)
+        if "EXITCODE: OK" in p.stdout and "The outcome is: NoError" in p.stdout:
+            done += 1
+        elif "outcome is: Error" in p.stdout or "violated" in p.stdout:
+            raise vlib.Inconclusive("model finding: Apalache refutes the inductive step '%s' of ReplayCacheInd.tla" % name)
+        else:
+            raise vlib.Inconclusive("apalache failed on '%s': %s" % (name, p.stdout[-600:]))
+    ctx.cov["apalache_inductive_obligations"] = {"obligations": 2, "discharged": done,
+                                                 "what": "IndInv inductive for 5 hashes, capacities 0..4, unbounded history"}
+
+
 def run(ctx):
     quick = ctx.quick
     # 1. design verdict
@@ -73,6 +101,10 @@ def run(ctx):
         ctx.cov["distinct_nontrivial"] += sh["rounds"]
         if i == 0:
             ctx.sample({"concurrent_trace_head": vlib.read_ndjson(tf)[:8]})
+
+    # 3b. unbounded history (thorough): Apalache discharges an inductive invariant of the typed copy of the model
+    if not quick:
+        apalache_induction(ctx)
 
     # 4. system level
     try:
